@@ -263,6 +263,33 @@ def run(ctx) -> None:
 
     check_ready_list_provenance(ctx, "C15.R7")
 
+    # whenever a limit is given and no limiter is installed yet, one is installed — unconditionally (whether a
+    # node body suspends is decided at run time, not by how the functions were declared)
+    from sa.cfg import test_atoms as _ta
+
+    n_inst = 0
+    for f in db.funcs_in("runners"):
+        sets_ = [c for c in db.calls_in(f) if call_names(db, c, f) & LIMITER_SETTERS]
+        if not sets_ or f.name in LIMITER_SETTERS or "max_concurrency" not in f.param_names:
+            continue
+        fcfg = ctx.cfg(f, runner_no_raise(db))
+        lim = _limiter_locals(db, f)
+        val = {"max_concurrency is None": False}
+        for t in fcfg.nodes:
+            if t.kind == "test" and t.ast is not None:
+                for a in _ta(t.ast):
+                    if isinstance(a, ast.Compare) and len(a.ops) == 1 and isinstance(a.ops[0], ast.Is) and isinstance(a.comparators[0], ast.Constant) and a.comparators[0].value is None:
+                        if isinstance(a.left, ast.Name) and a.left.id in lim or isinstance(a.left, ast.Call) and call_names(db, a.left, f) & LIMITER_GETTERS:
+                            val[src(a)] = True
+        set_nodes = [n for n in fcfg.nodes if any(c in sets_ for c in fcfg.calls_at(n))]
+        ss_names = {g_.name for g_ in superstep_funcs(db)}
+        work = [n for n in fcfg.nodes if n not in set_nodes and any(isinstance(x, ast.Await) and isinstance(x.value, ast.Call) and ((dotted(x.value.func) or "").split(".")[-1] in {"gather", "run", "_run_map_item"} | ss_names or call_names(db, x.value, f) & ss_names) for e in fcfg.header_exprs(n) for x in ast.walk(e))]
+        n_inst += 1
+        ok = bool(set_nodes) and bool(work) and all(all_paths_pass(fcfg.entry, w, set_nodes, specialize(val, fcfg)) for w in work if reaches(fcfg.entry, w, specialize(val, fcfg)))
+        rep.add("C15.R3", f"{f.qname}:limiter-installed-when-limit-given", ok, f.loc(), "with a limit given and no limiter installed, every awaited piece of work is preceded by installing one" if ok else "with max_concurrency given and no limiter installed yet, work can start without a limiter being installed (extra condition on the installation): node bodies that suspend at run time then run unbounded")
+    if n_inst < 2:
+        raise AnalysisError(f"only {n_inst} limiter installation sites found")
+
     # ---- R6 ---------------------------------------------------------------------
     from .c10 import check_async_map_order
 
